@@ -2140,8 +2140,10 @@ def read_lines(path_or_source, *, include=False, include_dirs=None):
             # grab its size
             size = os.path.getsize(include_path)
 
-            # modify the line by appending the size to the end (too hacky?)
-            line.contents = '{} {}'.format(raw_line, size)
+            # modify the line: refer to the file that was found (not the path as
+            # written, which is relative to the source file or an include dir)
+            # and append its size to the end (too hacky?)
+            line.contents = 'include_bytes {} {}'.format(include_path, size)
             lines.append(line)
         else:
             lines.append(line)
